@@ -837,6 +837,134 @@ fn case_server(out: &mut Out, kind: &str, c: ServerCase) {
     });
 }
 
+
+// ------------------------------------------------------------------ generated code (tonic-build output)
+// tonic-health's HealthServer / HealthClient (Check = unary, Watch = server streaming) and
+// tonic-reflection's ServerReflectionServer / ServerReflectionClient (bidirectional streaming),
+// configured through their own accept_compressed / send_compressed / max_* builder methods.
+use prost::Message as _;
+use tonic_health::pb::health_client::HealthClient;
+use tonic_health::pb::health_server::{Health, HealthServer};
+use tonic_health::pb::{HealthCheckRequest, HealthCheckResponse};
+use tonic_reflection::pb::v1::server_reflection_client::ServerReflectionClient;
+use tonic_reflection::pb::v1::server_reflection_server::{ServerReflection, ServerReflectionServer};
+use tonic_reflection::pb::v1::{ServerReflectionRequest, ServerReflectionResponse};
+
+const GEN_SHAPES: [Shape; 3] = [Shape::Unary, Shape::ServerStreaming, Shape::Streaming];
+fn gen_path(s: Shape) -> &'static str {
+    match s {
+        Shape::Unary => "/grpc.health.v1.Health/Check",
+        Shape::ServerStreaming => "/grpc.health.v1.Health/Watch",
+        _ => "/grpc.reflection.v1.ServerReflection/ServerReflectionInfo",
+    }
+}
+/// request / response messages of the generated services, as the bytes prost puts on the wire
+fn gen_request_msg(s: Shape, name: &str) -> Vec<u8> {
+    match s {
+        Shape::Unary | Shape::ServerStreaming => HealthCheckRequest { service: name.to_string() }.encode_to_vec(),
+        _ => ServerReflectionRequest { host: name.to_string(), message_request: None }.encode_to_vec(),
+    }
+}
+fn gen_response_msg(s: Shape, k: u8) -> Vec<u8> {
+    match s {
+        Shape::Unary | Shape::ServerStreaming => HealthCheckResponse { status: k as i32 }.encode_to_vec(),
+        _ => ServerReflectionResponse { valid_host: "h".repeat(k as usize), original_request: None, message_response: None }
+            .encode_to_vec(),
+    }
+}
+#[derive(Clone)]
+struct GenH {
+    spec: HandlerSpec,
+    seen: Seen,
+}
+type GenStream<T> = tokio_stream::Iter<std::vec::IntoIter<Result<T, Status>>>;
+impl GenH {
+    fn typed<T: prost::Message + Default>(&self) -> Vec<Result<T, Status>> {
+        self.spec.msgs.iter().map(|b| Ok(T::decode(&b[..]).expect("harness response message"))).collect()
+    }
+}
+async fn drain_typed<T: prost::Message + Default>(mut s: tonic::Streaming<T>, seen: Seen) -> Result<(), Status> {
+    loop {
+        match s.message().await {
+            Ok(Some(m)) => seen.lock().unwrap().push(m.encode_to_vec()),
+            Ok(None) => return Ok(()),
+            Err(st) => return Err(st),
+        }
+    }
+}
+#[tonic::async_trait]
+impl Health for GenH {
+    async fn check(&self, req: Request<HealthCheckRequest>) -> Result<Response<HealthCheckResponse>, Status> {
+        self.seen.lock().unwrap().push(req.into_inner().encode_to_vec());
+        self.spec.finish(HealthCheckResponse::decode(&self.spec.one()[..]).expect("harness response message"))
+    }
+    type WatchStream = GenStream<HealthCheckResponse>;
+    async fn watch(&self, req: Request<HealthCheckRequest>) -> Result<Response<Self::WatchStream>, Status> {
+        self.seen.lock().unwrap().push(req.into_inner().encode_to_vec());
+        self.spec.finish(tokio_stream::iter(self.typed::<HealthCheckResponse>()))
+    }
+}
+#[tonic::async_trait]
+impl ServerReflection for GenH {
+    type ServerReflectionInfoStream = GenStream<ServerReflectionResponse>;
+    async fn server_reflection_info(
+        &self,
+        req: Request<tonic::Streaming<ServerReflectionRequest>>,
+    ) -> Result<Response<Self::ServerReflectionInfoStream>, Status> {
+        drain_typed(req.into_inner(), self.seen.clone()).await?;
+        self.spec.finish(tokio_stream::iter(self.typed::<ServerReflectionResponse>()))
+    }
+}
+const BIG: usize = 1 << 22;
+fn health_server(accept: &[Enc], send: &[Enc], with_max: bool, h: H) -> HealthServer<GenH> {
+    let mut s = HealthServer::new(GenH { spec: h.spec, seen: h.seen });
+    for e in accept {
+        s = s.accept_compressed(e.tonic());
+    }
+    for e in send {
+        s = s.send_compressed(e.tonic());
+    }
+    if with_max {
+        s = s.max_decoding_message_size(BIG).max_encoding_message_size(BIG);
+    }
+    s
+}
+fn reflection_server(accept: &[Enc], send: &[Enc], with_max: bool, h: H) -> ServerReflectionServer<GenH> {
+    let mut s = ServerReflectionServer::new(GenH { spec: h.spec, seen: h.seen });
+    // the other order of the two kinds of calls
+    for e in send {
+        s = s.send_compressed(e.tonic());
+    }
+    for e in accept {
+        s = s.accept_compressed(e.tonic());
+    }
+    if with_max {
+        s = s.max_decoding_message_size(BIG).max_encoding_message_size(BIG);
+    }
+    s
+}
+/// a raw http request into the generated server
+fn call_generated(
+    shape: Shape,
+    accept: &[Enc],
+    send: &[Enc],
+    with_max: bool,
+    h: H,
+    req: http::Request<ScriptBody<Status>>,
+) -> Result<http::Response<tonic::body::Body>, ()> {
+    use tower_service::Service;
+    match shape {
+        Shape::Unary | Shape::ServerStreaming => {
+            let mut s = health_server(accept, send, with_max, h);
+            spin(s.call(req), 100_000).map(|r| r.unwrap())
+        }
+        _ => {
+            let mut s = reflection_server(accept, send, with_max, h);
+            spin(s.call(req), 100_000).map(|r| r.unwrap())
+        }
+    }
+}
+
 // ------------------------------------------------------------------ client side
 type Captured = Arc<Mutex<Option<(HeaderMap, Vec<u8>)>>>;
 #[derive(Clone)]
@@ -912,6 +1040,10 @@ fn run_client(c: &ClientCase) -> Result<(Option<(HeaderMap, Vec<u8>)>, ClientOut
             evs.push(Ev::Trailers(t));
         }
         let svc = CaptureSvc { captured: cap2, resp_headers: mk_hm(&c.resp_headers), resp_events: evs };
+        if c.gen {
+            let md = MetadataMap::from_headers(mk_hm(&c.user_md));
+            return call_generated_client(svc, c.shape, &c.sends, &c.accepts, c.sends.len() % 2 == 1, md, &c.msgs);
+        }
         let mut client = tonic::client::Grpc::new(svc);
         for e in &c.sends {
             client = client.send_compressed(e.tonic());
@@ -975,6 +1107,396 @@ fn run_client(c: &ClientCase) -> Result<(Option<(HeaderMap, Vec<u8>)>, ClientOut
     let cap = captured.lock().unwrap().take();
     r.map(|x| (cap, x))
 }
+
+/// the generated clients over any transport
+fn call_generated_client<S>(svc: S, shape: Shape, sends: &[Enc], accepts: &[Enc], with_max: bool, md: MetadataMap, msgs: &[Vec<u8>]) -> ClientOut
+where
+    S: tonic::client::GrpcService<tonic::body::Body>,
+    S::Error: Into<Box<dyn std::error::Error + Send + Sync>>,
+    S::ResponseBody: http_body::Body<Data = bytes::Bytes> + Send + 'static,
+    <S::ResponseBody as http_body::Body>::Error: Into<Box<dyn std::error::Error + Send + Sync>> + Send,
+{
+    fn drain_stream<T: prost::Message + Default>(r: Result<Result<Response<tonic::Streaming<T>>, Status>, ()>) -> ClientOut {
+        match r {
+            Err(()) => ClientOut { delivered: vec![], fin: Ok(()), hang: true },
+            Ok(Err(st)) => ClientOut { delivered: vec![], fin: Err(st), hang: false },
+            Ok(Ok(resp)) => {
+                let mut s = resp.into_inner();
+                let mut delivered = vec![];
+                loop {
+                    match spin(s.message(), 100_000) {
+                        Err(()) => return ClientOut { delivered, fin: Ok(()), hang: true },
+                        Ok(Err(st)) => return ClientOut { delivered, fin: Err(st), hang: false },
+                        Ok(Ok(Some(m))) => delivered.push(m.encode_to_vec()),
+                        Ok(Ok(None)) => return ClientOut { delivered, fin: Ok(()), hang: false },
+                    }
+                }
+            }
+        }
+    }
+    let first = msgs.first().cloned().unwrap_or_default();
+    match shape {
+        Shape::Unary | Shape::ServerStreaming => {
+            let mut cl = HealthClient::new(svc);
+            for e in sends {
+                cl = cl.send_compressed(e.tonic());
+            }
+            for e in accepts {
+                cl = cl.accept_compressed(e.tonic());
+            }
+            if with_max {
+                cl = cl.max_decoding_message_size(BIG).max_encoding_message_size(BIG);
+            }
+            let mut req = Request::new(HealthCheckRequest::decode(&first[..]).expect("harness request message"));
+            *req.metadata_mut() = md;
+            if shape == Shape::Unary {
+                match spin(cl.check(req), 100_000) {
+                    Err(()) => ClientOut { delivered: vec![], fin: Ok(()), hang: true },
+                    Ok(Err(st)) => ClientOut { delivered: vec![], fin: Err(st), hang: false },
+                    Ok(Ok(resp)) => ClientOut { delivered: vec![resp.into_inner().encode_to_vec()], fin: Ok(()), hang: false },
+                }
+            } else {
+                drain_stream(spin(cl.watch(req), 100_000))
+            }
+        }
+        _ => {
+            let mut cl = ServerReflectionClient::new(svc);
+            for e in accepts {
+                cl = cl.accept_compressed(e.tonic());
+            }
+            for e in sends {
+                cl = cl.send_compressed(e.tonic());
+            }
+            if with_max {
+                cl = cl.max_decoding_message_size(BIG).max_encoding_message_size(BIG);
+            }
+            let typed: Vec<ServerReflectionRequest> =
+                msgs.iter().map(|b| ServerReflectionRequest::decode(&b[..]).expect("harness request message")).collect();
+            let mut req = Request::new(tokio_stream::iter(typed));
+            *req.metadata_mut() = md;
+            drain_stream(spin(cl.server_reflection_info(req), 100_000))
+        }
+    }
+}
+
+// ------------------------------------------------------------------ generated client over generated server
+/// sits between the two and records what crosses: request headers + body, response headers + body
+#[derive(Default)]
+struct SpyRec {
+    req_headers: HeaderMap,
+    req_data: Vec<u8>,
+    resp_headers: HeaderMap,
+    resp_data: Vec<u8>,
+    resp_trailers: Option<HeaderMap>,
+}
+#[derive(Clone)]
+struct Spy<S> {
+    inner: S,
+    rec: Arc<Mutex<Option<SpyRec>>>,
+}
+async fn collect_async<B>(mut body: B) -> (Vec<u8>, Option<HeaderMap>)
+where
+    B: http_body::Body + Unpin,
+    B::Data: Buf,
+{
+    let mut data = vec![];
+    let mut trailers = None;
+    loop {
+        let f = std::future::poll_fn(|cx| Pin::new(&mut body).poll_frame(cx)).await;
+        match f {
+            Some(Ok(f)) => match f.into_data() {
+                Ok(mut d) => {
+                    while d.has_remaining() {
+                        let c = d.chunk().to_vec();
+                        d.advance(c.len());
+                        data.extend_from_slice(&c);
+                    }
+                }
+                Err(f) => {
+                    if let Ok(t) = f.into_trailers() {
+                        trailers = Some(t);
+                    }
+                }
+            },
+            _ => return (data, trailers),
+        }
+    }
+}
+impl<S> tower_service::Service<http::Request<tonic::body::Body>> for Spy<S>
+where
+    S: tower_service::Service<
+            http::Request<ScriptBody<Status>>,
+            Response = http::Response<tonic::body::Body>,
+            Error = std::convert::Infallible,
+        > + Clone
+        + Send
+        + 'static,
+    S::Future: Send + 'static,
+{
+    type Response = http::Response<ScriptBody<Status>>;
+    type Error = Status;
+    type Future = Pin<Box<dyn Future<Output = Result<Self::Response, Status>> + Send>>;
+    fn poll_ready(&mut self, _: &mut Context<'_>) -> Poll<Result<(), Status>> {
+        Poll::Ready(Ok(()))
+    }
+    fn call(&mut self, req: http::Request<tonic::body::Body>) -> Self::Future {
+        let mut inner = self.inner.clone();
+        let rec = self.rec.clone();
+        Box::pin(async move {
+            let (parts, body) = req.into_parts();
+            let (req_data, _) = collect_async(body).await;
+            let mut r = SpyRec { req_headers: parts.headers.clone(), req_data: req_data.clone(), ..Default::default() };
+            let (b, _) = ScriptBody::<Status>::new(if req_data.is_empty() { vec![] } else { vec![Ev::Data(req_data)] });
+            let resp = inner.call(http::Request::from_parts(parts, b)).await.unwrap();
+            let (rparts, rbody) = resp.into_parts();
+            let (data, trailers) = collect_async(rbody).await;
+            r.resp_headers = rparts.headers.clone();
+            r.resp_data = data.clone();
+            r.resp_trailers = trailers.clone();
+            *rec.lock().unwrap() = Some(r);
+            let mut evs = vec![];
+            if !data.is_empty() {
+                evs.push(Ev::Data(data));
+            }
+            if let Some(t) = trailers {
+                evs.push(Ev::Trailers(t));
+            }
+            let (b, _) = ScriptBody::new(evs);
+            Ok(http::Response::from_parts(rparts, b))
+        })
+    }
+}
+
+struct E2eCase {
+    shape: Shape,
+    cl_sends: Vec<Enc>,
+    cl_accepts: Vec<Enc>,
+    sv_accept: Vec<Enc>,
+    sv_send: Vec<Enc>,
+    with_max: bool,
+    user_md: Pairs,
+    msgs: Vec<Vec<u8>>,
+    handler: HandlerSpec,
+}
+fn case_e2e(out: &mut Out, kind: &str, c: E2eCase) {
+    let user_hm = mk_hm(&c.user_md);
+    let handler_hm = mk_hm(&c.handler.md);
+    let told = c.cl_sends.last().copied();
+    let cl_acc = dedup(&c.cl_accepts);
+    let sv_acc = dedup(&c.sv_accept);
+    let sv_send = dedup(&c.sv_send);
+    let sent: Vec<Vec<u8>> = if c.shape.request_is_unary() { vec![c.msgs.first().cloned().unwrap_or_default()] } else { c.msgs.clone() };
+    let resp_msgs: Vec<Vec<u8>> = if c.shape.response_is_unary() { vec![c.handler.one()] } else { c.handler.msgs.clone() };
+    let mut tab = vec![];
+    if let Some(e) = told {
+        tab.push(coq_ctab(&[e], &sent));
+    }
+    tab.push(coq_ctab(&sv_send, &resp_msgs));
+    let ctab = format!("({})", tab.join(" ++ "));
+    let h = match &c.handler.err {
+        Some((code, t)) => format!("(HErr (mkStatus {} {} [] []))", code, coq_bytes(t.as_bytes())),
+        None => format!(
+            "(HOk {} {} {})",
+            coq_hm(&handler_hm),
+            if c.handler.disable { "Disable" } else { "Inherit" },
+            coq_list(&c.handler.msgs, |m| coq_bytes(m))
+        ),
+    };
+    let model = format!(
+        "obs_end_to_end {} {} (client_of {} {}) (apply_compression_config server_new (config_of {}) (config_of {})) {} {} {}",
+        ctab,
+        c.shape.coq(),
+        coq_encs(&c.cl_sends),
+        coq_encs(&c.cl_accepts),
+        coq_encs(&c.sv_accept),
+        coq_encs(&c.sv_send),
+        coq_hm(&user_hm),
+        coq_list(&c.msgs, |m| coq_bytes(m)),
+        h
+    );
+    let seen: Seen = Arc::new(Mutex::new(vec![]));
+    let rec: Arc<Mutex<Option<SpyRec>>> = Arc::new(Mutex::new(None));
+    let run = {
+        let (seen, rec, c) = (seen.clone(), rec.clone(), &c);
+        std::panic::AssertUnwindSafe(move || {
+            let h = H { spec: c.handler.clone(), seen };
+            let md = MetadataMap::from_headers(mk_hm(&c.user_md));
+            match c.shape {
+                Shape::Unary | Shape::ServerStreaming => {
+                    let svc = Spy { inner: health_server(&c.sv_accept, &c.sv_send, c.with_max, h), rec };
+                    call_generated_client(svc, c.shape, &c.cl_sends, &c.cl_accepts, c.with_max, md, &c.msgs)
+                }
+                _ => {
+                    let svc = Spy { inner: reflection_server(&c.sv_accept, &c.sv_send, c.with_max, h), rec };
+                    call_generated_client(svc, c.shape, &c.cl_sends, &c.cl_accepts, c.with_max, md, &c.msgs)
+                }
+            }
+        })
+    };
+    let mut why: Option<String> = None;
+    let mut fail = |s: String| {
+        if why.is_none() {
+            why = Some(s);
+        }
+    };
+    let obs = match (catch(run), rec.lock().unwrap().take()) {
+        (Err(p), _) => {
+            fail(format!("panic: {}", p));
+            Tr::L(vec![Tr::n(99u8)])
+        }
+        (Ok(o), _) if o.hang => {
+            fail("the call did not complete".into());
+            Tr::L(vec![Tr::n(98u8)])
+        }
+        (Ok(_), None) => {
+            fail("nothing crossed between client and server".into());
+            Tr::L(vec![Tr::n(97u8)])
+        }
+        (Ok(o), Some(r)) => {
+            // ---- the request on the wire
+            let (rframes, rest) = all_frames(&r.req_data);
+            if rest != 0 || rframes.len() != sent.len() {
+                fail(format!("{} request messages, {} frames (+{} bytes)", sent.len(), rframes.len(), rest));
+            }
+            let want = told.map_or(0, |e| e.tag());
+            let mut rq_tr = vec![];
+            for (i, (flag, p, raw)) in rframes.iter().enumerate() {
+                let used = used_tag(*flag, p, &sent.get(i).cloned().unwrap_or_default());
+                rq_tr.push(Tr::L(vec![Tr::n(*flag), Tr::n(used), Tr::b(raw)]));
+                if used != want {
+                    fail(format!("client told to send {:?}, request frame {} is coded as {}", told.map(|e| e.name()), i, used));
+                }
+            }
+            let ann_rq = values(&r.req_headers, ENCODING);
+            if ann_rq != told.map(|e| e.name().as_bytes().to_vec()).into_iter().collect::<Vec<_>>() {
+                fail(format!("client told to send {:?}, grpc-encoding is {:?}", told.map(|e| e.name()), ann_rq));
+            }
+            let adv = values(&r.req_headers, ACCEPT);
+            if cl_acc.is_empty() {
+                if !adv.is_empty() {
+                    fail("client advertises encodings although none is accepted".into());
+                }
+            } else if adv.len() != 1 || !lists_precisely(&adv[0], &cl_acc) {
+                fail(format!("client accepts {} but advertises {:?}", names(&cl_acc), adv));
+            }
+            // ---- what must happen
+            let request_ok = told.map_or(true, |e| sv_acc.contains(&e));
+            let expected_resp: Option<Enc> = cl_acc.iter().copied().find(|e| sv_send.contains(e));
+            let opt_out = c.handler.disable && c.shape.response_is_unary();
+            // ---- the response on the wire
+            let resp_tr = if r.resp_headers.contains_key("grpc-status") {
+                let st = Status::from_header_map(&r.resp_headers).unwrap();
+                let refusal = st.code() == Code::Unimplemented && st.message().starts_with(PREFIXES[0]);
+                if !request_ok {
+                    let av = values(&r.resp_headers, ACCEPT);
+                    if !refusal {
+                        fail(format!("server accepts {} but answered {:?} to a request coded {:?}", names(&sv_acc), st.code(), told.map(|e| e.name())));
+                    } else if av.len() != 1 || !lists_precisely(&av[0], &sv_acc) {
+                        fail(format!("refusal lists {:?}, server accepts {}", av, names(&sv_acc)));
+                    }
+                } else if refusal {
+                    fail(format!("server accepts {} and refused a request coded {:?}", names(&sv_acc), told.map(|e| e.name())));
+                } else {
+                    match &c.handler.err {
+                        Some((hc, _)) if st.code() as i32 == *hc => {}
+                        _ => fail(format!("unexpected status {:?}: {}", st.code(), st.message())),
+                    }
+                }
+                Tr::L(vec![Tr::n(1u8), brief_tr(st.code(), st.message(), values_tr(&r.resp_headers, ACCEPT)), sel_tr(&r.resp_headers)])
+            } else {
+                if !request_ok {
+                    fail("a request whose encoding the server does not accept was served".into());
+                }
+                if c.handler.err.is_some() {
+                    fail("the handler's error was not returned".into());
+                }
+                if *seen.lock().unwrap() != sent {
+                    fail("the handler did not receive the request message(s)".into());
+                }
+                let (frames, rest) = all_frames(&r.resp_data);
+                if rest != 0 || frames.len() != resp_msgs.len() {
+                    fail(format!("{} response messages, {} frames (+{} bytes)", resp_msgs.len(), frames.len(), rest));
+                }
+                let ann = values(&r.resp_headers, ENCODING);
+                if ann != expected_resp.map(|e| e.name().as_bytes().to_vec()).into_iter().collect::<Vec<_>>() {
+                    fail(format!(
+                        "client accepts {}, server sends {}: expected {:?}, announced {:?}",
+                        names(&cl_acc),
+                        names(&sv_send),
+                        expected_resp.map(|e| e.name()),
+                        ann
+                    ));
+                }
+                let want = if opt_out { 0 } else { expected_resp.map_or(0, |e| e.tag()) };
+                let mut ftr = vec![];
+                for (i, (flag, p, raw)) in frames.iter().enumerate() {
+                    let used = used_tag(*flag, p, &resp_msgs.get(i).cloned().unwrap_or_default());
+                    ftr.push(Tr::L(vec![Tr::n(*flag), Tr::n(used), Tr::b(raw)]));
+                    if used != want {
+                        fail(format!("response frame {} coded as {}, expected {}", i, used, want));
+                    }
+                }
+                Tr::L(vec![Tr::n(0u8), hm_tr(&r.resp_headers), Tr::L(ftr)])
+            };
+            // ---- what the caller got
+            let res_tr = match &o.fin {
+                Ok(()) => {
+                    if !request_ok || c.handler.err.is_some() {
+                        fail("the call succeeded".into());
+                    } else {
+                        let want: Vec<Vec<u8>> = resp_msgs.clone();
+                        if o.delivered != want {
+                            fail("the caller did not get the response message(s)".into());
+                        }
+                    }
+                    Tr::L(vec![Tr::n(0u8), Tr::n(o.delivered.len() as u64)])
+                }
+                Err(st) => {
+                    if !request_ok {
+                        if st.code() != Code::Unimplemented {
+                            fail(format!("the caller got {:?} for a refused encoding", st.code()));
+                        }
+                    } else {
+                        match &c.handler.err {
+                            Some((hc, _)) if st.code() as i32 == *hc => {}
+                            _ => fail(format!("the call failed with {:?}: {}", st.code(), st.message())),
+                        }
+                    }
+                    let md = st.metadata().clone().into_headers();
+                    Tr::L(vec![Tr::n(1u8), Tr::n(o.delivered.len() as u64), brief_tr(st.code(), st.message(), values_tr(&md, ACCEPT))])
+                }
+            };
+            Tr::L(vec![res_tr, Tr::L(vec![hm_tr(&r.req_headers), Tr::L(rq_tr)]), resp_tr])
+        }
+    };
+    drop(fail);
+    out.hist("e2e.shape", c.shape.name());
+    out.hist("e2e.client", format!("send={} accept={}", told.map_or("none", |e| e.name()), names(&cl_acc)));
+    out.hist("e2e.server", format!("accept={} send={}", names(&sv_acc), names(&sv_send)));
+    out.hist("e2e.outcome", match &obs { Tr::L(v) => v.first().map(outcome_of).unwrap_or_default(), _ => "?".into() });
+    out.push(Case {
+        kind: kind.into(),
+        input: json!({
+            "shape": c.shape.name(),
+            "client_send_calls": c.cl_sends.iter().map(|e| e.name()).collect::<Vec<_>>(),
+            "client_accept_calls": c.cl_accepts.iter().map(|e| e.name()).collect::<Vec<_>>(),
+            "server_accept_calls": c.sv_accept.iter().map(|e| e.name()).collect::<Vec<_>>(),
+            "server_send_calls": c.sv_send.iter().map(|e| e.name()).collect::<Vec<_>>(),
+            "with_max_sizes": c.with_max,
+            "user_metadata": hm_json(&user_hm),
+            "msgs": c.msgs.iter().map(|m| hex(m)).collect::<Vec<_>>(),
+            "handler_metadata": hm_json(&handler_hm),
+            "handler_disable_compression": c.handler.disable,
+            "handler_err": c.handler.err.as_ref().map(|(c, t)| json!([c, t])),
+            "handler_messages": c.handler.msgs.iter().map(|m| hex(m)).collect::<Vec<_>>(),
+        }),
+        model,
+        impl_obs: obs,
+        oracle: why,
+        nontrivial: told.is_some() || !cl_acc.is_empty() || !sv_acc.is_empty() || !sv_send.is_empty(),
+    });
+}
+
 fn client_coq(c: &ClientCase) -> String {
     format!("(client_of {} {})", coq_encs(&c.sends), coq_encs(&c.accepts))
 }
@@ -1056,7 +1578,7 @@ fn case_client_request(out: &mut Out, kind: &str, c: ClientCase) {
             Tr::L(vec![Tr::n(0u8), hm_tr(&headers), Tr::L(ftr)])
         }
     };
-    out.hist("client.shape", c.shape.name());
+    out.hist("client.shape", format!("{}{}", if c.gen { "generated:" } else { "" }, c.shape.name()));
     out.hist("client.send_cfg", told.map_or("none", |e| e.name()));
     out.hist("client.accept_cfg", names(&acc_set));
     out.hist("client.request_messages", sent.len());
@@ -1064,6 +1586,7 @@ fn case_client_request(out: &mut Out, kind: &str, c: ClientCase) {
     out.push(Case {
         kind: kind.into(),
         input: json!({
+            "generated": c.gen,
             "shape": c.shape.name(),
             "send_calls": c.sends.iter().map(|e| e.name()).collect::<Vec<_>>(),
             "accept_calls": c.accepts.iter().map(|e| e.name()).collect::<Vec<_>>(),
@@ -1472,6 +1995,35 @@ fn gen_frames(r: &mut Rng, enc: &Option<Vec<u8>>) -> Vec<InFrame> {
         .collect()
 }
 
+
+/// a request frame of a generated service: the message is valid protobuf; never an unflagged
+/// compressed payload (the prost codec, unlike the raw one, would reject it as a message)
+fn gen_typed_frame(r: &mut Rng, shape: Shape, enc: &Option<Vec<u8>>) -> InFrame {
+    let named = enc.as_ref().and_then(|v| Enc::by_name(v));
+    let msg = gen_request_msg(shape, *r.pick(&["", "a", "svc.Name", "grpc.health.v1.Health"]));
+    let (flag, codec) = match r.below(20) {
+        0..=8 => (0, None),
+        9..=15 => (1, named.or_else(|| if r.chance(1, 2) { Some(*r.pick(&ALL)) } else { None })),
+        16 | 17 => (1, Some(*r.pick(&ALL))),
+        18 => (1, None),
+        _ => (*r.pick(&[2u8, 3, 128, 255]), None),
+    };
+    InFrame { flag, codec, msg }
+}
+fn gen_typed_handler(r: &mut Rng, shape: Shape, plain: bool) -> HandlerSpec {
+    let n = *r.pick(&[1usize, 1, 2, 3, 0]);
+    let mut msgs: Vec<Vec<u8>> = (0..n).map(|_| gen_response_msg(shape, r.below(4) as u8)).collect();
+    if shape.response_is_unary() && msgs.is_empty() {
+        msgs.push(gen_response_msg(shape, 1));
+    }
+    if plain {
+        return HandlerSpec { md: vec![], disable: false, err: None, msgs };
+    }
+    let mut h = gen_handler(r);
+    h.msgs = msgs;
+    h
+}
+
 // ------------------------------------------------------------------ replay of one stored case
 fn encs_of(v: &serde_json::Value) -> Vec<Enc> {
     v.as_array()
@@ -1499,9 +2051,26 @@ fn replay(out: &mut Out, file: &str) {
     let kind = v["kind"].as_str().unwrap_or("server").to_string();
     let i = &v["input"];
     let shape = Shape::by_name(i["shape"].as_str().unwrap_or("unary"));
-    if kind.ends_with("server") {
+    if kind.ends_with("e2e") {
+        case_e2e(out, &kind, E2eCase {
+            shape,
+            cl_sends: encs_of(&i["client_send_calls"]),
+            cl_accepts: encs_of(&i["client_accept_calls"]),
+            sv_accept: encs_of(&i["server_accept_calls"]),
+            sv_send: encs_of(&i["server_send_calls"]),
+            with_max: i["with_max_sizes"].as_bool().unwrap_or(false),
+            user_md: pairs_of(&i["user_metadata"]),
+            msgs: msgs_of(&i["msgs"]),
+            handler: HandlerSpec {
+                md: pairs_of(&i["handler_metadata"]),
+                disable: i["handler_disable_compression"].as_bool().unwrap_or(false),
+                err: i["handler_err"].as_array().map(|a| (a[0].as_i64().unwrap_or(2) as i32, a[1].as_str().unwrap_or("").to_string())),
+                msgs: msgs_of(&i["handler_messages"]),
+            },
+        });
+    } else if kind.ends_with("server") {
         case_server(out, &kind, ServerCase {
-            gen: None, shape,
+            gen: i["generated"].as_bool(), shape,
             accept: encs_of(&i["accept"]),
             send: encs_of(&i["send"]),
             via_apply: i["via_apply_compression_config"].as_bool().unwrap_or(false),
@@ -1517,7 +2086,7 @@ fn replay(out: &mut Out, file: &str) {
         });
     } else if kind.ends_with("client_request") {
         case_client_request(out, &kind, ClientCase {
-            gen: false, shape, sends: encs_of(&i["send_calls"]), accepts: encs_of(&i["accept_calls"]), user_md: pairs_of(&i["user_metadata"]),
+            gen: i["generated"].as_bool().unwrap_or(false), shape, sends: encs_of(&i["send_calls"]), accepts: encs_of(&i["accept_calls"]), user_md: pairs_of(&i["user_metadata"]),
             msgs: msgs_of(&i["msgs"]), resp_headers: vec![], resp_frames: vec![InFrame { flag: 0, codec: None, msg: b"ok".to_vec() }],
             trailers_only: false, coalesce: false,
         });
@@ -1546,7 +2115,7 @@ fn replay(out: &mut Out, file: &str) {
     }
 }
 
-const RULE: &str = "server: all four entry points of the real tonic::server::Grpc (unary, server_streaming, client_streaming, streaming; raw codec; handlers that read a streaming request to its end and answer with the configured message(s)) under every ordered send/accept configuration (builder calls incl. repeats, or apply_compression_config) x grpc-accept-encoding values (lists, odd spacing, tabs, unknown tokens, q= params, case, empty items, obs-text, duplicates, 0/1/2 header lines) x request grpc-encoding values x 0..3 request frames (flag bytes, payload codings, one chunk or several) x handler (metadata, disable_compression, error, 0..3 response messages); observable = response headers and EVERY response frame (flag, codec that really inflates it, exact bytes against the independent compressor), or status code + grpc-accept-encoding. client_request / client_receive: all four call shapes of the real tonic::client::Grpc over a capturing transport, every request frame, every delivered message. ops: enable/pop sequences on EnabledCompressionEncodings seen through Debug. Oracle exclusions (= stated theorem premises): the announce checks are off exactly when the handler's own metadata has a grpc-encoding entry; the client's no-header checks are off exactly when the caller's own metadata has that entry. Non-trivial = some configuration or header present. Distinct = distinct (kind, model expression).";
+const RULE: &str = "gen.server / gen.client_request / gen.e2e: the GENERATED tonic-health HealthServer / HealthClient (Check = unary, Watch = server streaming) and tonic-reflection v1 ServerReflectionServer / ServerReflectionClient (bidirectional streaming) configured only through their own accept_compressed / send_compressed / max_*_message_size methods (every ordered subset, asymmetric accept vs send sets first): a raw http::Request with arbitrary grpc-accept-encoding / grpc-encoding values into the generated server, the generated client against a capturing transport, and the generated client over the generated server in-process with a recorder between them; same model expressions (server_call / client_request with apply_compression_config, and their composition obs_end_to_end) and same oracles as the hand-built kinds. server: all four entry points of the real tonic::server::Grpc (unary, server_streaming, client_streaming, streaming; raw codec; handlers that read a streaming request to its end and answer with the configured message(s)) under every ordered send/accept configuration (builder calls incl. repeats, or apply_compression_config) x grpc-accept-encoding values (lists, odd spacing, tabs, unknown tokens, q= params, case, empty items, obs-text, duplicates, 0/1/2 header lines) x request grpc-encoding values x 0..3 request frames (flag bytes, payload codings, one chunk or several) x handler (metadata, disable_compression, error, 0..3 response messages); observable = response headers and EVERY response frame (flag, codec that really inflates it, exact bytes against the independent compressor), or status code + grpc-accept-encoding. client_request / client_receive: all four call shapes of the real tonic::client::Grpc over a capturing transport, every request frame, every delivered message. ops: enable/pop sequences on EnabledCompressionEncodings seen through Debug. Oracle exclusions (= stated theorem premises): the announce checks are off exactly when the handler's own metadata has a grpc-encoding entry; the client's no-header checks are off exactly when the caller's own metadata has that entry. Non-trivial = some configuration or header present. Distinct = distinct (kind, model expression).";
 
 fn main() {
     let a = args();
@@ -1724,6 +2293,90 @@ fn main() {
             resp_frames: vec![InFrame { flag: 1, codec: None, msg: msg.clone() }], trailers_only: false, coalesce: false,
         });
     }
+    // ---- generated code: HealthServer / HealthClient / ServerReflectionServer / ServerReflectionClient
+    // asymmetric accept / send sets first (a swap of the two arguments of apply_compression_config
+    // in the generated method arms shows here)
+    let asym: &[(&[Enc], &[Enc])] = &[
+        (&[Enc::Gzip], &[Enc::Zstd]),
+        (&[Enc::Zstd, Enc::Deflate], &[Enc::Gzip]),
+        (&[], &[Enc::Deflate, Enc::Gzip]),
+        (&[Enc::Deflate], &[]),
+        (&[Enc::Gzip, Enc::Deflate, Enc::Zstd], &[Enc::Zstd]),
+    ];
+    for shape in GEN_SHAPES {
+        let rq = gen_request_msg(shape, "svc");
+        for (acc, snd) in asym {
+            for (hdr_acc, hdr_enc) in [(&b"gzip,deflate,zstd"[..], None), (b"zstd, gzip", Some(&b"gzip"[..])), (b"deflate", Some(b"zstd")), (b"br", Some(b"deflate")), (b"gzip", Some(b"identity"))] {
+                let mut headers: Pairs = vec![(ACCEPT.into(), hdr_acc.to_vec())];
+                let mut codec = None;
+                if let Some(e) = hdr_enc {
+                    headers.push((ENCODING.into(), e.to_vec()));
+                    codec = Enc::by_name(e);
+                }
+                case_server(&mut out, "corpus.gen.server", ServerCase {
+                    gen: Some(acc.len() % 2 == 0), shape, accept: acc.to_vec(), send: snd.to_vec(), via_apply: true, headers,
+                    frames: vec![InFrame { flag: codec.is_some() as u8, codec, msg: rq.clone() }], coalesce: false,
+                    handler: HandlerSpec { md: vec![], disable: false, err: None, msgs: vec![gen_response_msg(shape, 1), gen_response_msg(shape, 2)] },
+                });
+            }
+        }
+    }
+    // every send configuration x listed header values, every accept configuration x grpc-encoding values
+    for (ci, cfg) in cfgs.iter().enumerate() {
+        for (vi, v) in ACCEPT_VALUES.iter().enumerate() {
+            if !a.thorough && (ci + vi) % 4 != 0 {
+                continue;
+            }
+            let shape = GEN_SHAPES[(ci + vi) % 3];
+            case_server(&mut out, "corpus.gen.server", ServerCase {
+                gen: Some(vi % 2 == 0), shape, accept: vec![], send: cfg.clone(), via_apply: true,
+                headers: vec![(ACCEPT.into(), v.to_vec())],
+                frames: vec![InFrame { flag: 0, codec: None, msg: gen_request_msg(shape, "a") }], coalesce: false,
+                handler: HandlerSpec { md: vec![], disable: false, err: None, msgs: vec![gen_response_msg(shape, 1), gen_response_msg(shape, 3)] },
+            });
+        }
+        for (vi, v) in ENCODING_VALUES.iter().skip(4).enumerate() {
+            if !a.thorough && (ci + vi) % 3 != 0 {
+                continue;
+            }
+            let shape = GEN_SHAPES[(ci + vi) % 3];
+            let codec = Enc::by_name(v);
+            case_server(&mut out, "corpus.gen.server", ServerCase {
+                gen: Some(false), shape, accept: cfg.clone(), send: vec![Enc::Gzip], via_apply: true,
+                headers: vec![(ENCODING.into(), v.to_vec()), (ACCEPT.into(), b"gzip".to_vec())],
+                frames: vec![InFrame { flag: codec.is_some() as u8, codec, msg: gen_request_msg(shape, "a") }], coalesce: false,
+                handler: HandlerSpec { md: vec![], disable: vi % 5 == 0, err: None, msgs: vec![gen_response_msg(shape, 1)] },
+            });
+        }
+        // the generated client: what it sends and advertises
+        for send in [vec![], vec![Enc::Gzip], vec![Enc::Deflate], vec![Enc::Zstd], vec![Enc::Zstd, Enc::Gzip]] {
+            for shape in GEN_SHAPES {
+                k += 1;
+                if !a.thorough && k % 2 != 0 {
+                    continue;
+                }
+                case_client_request(&mut out, "corpus.gen.client_request", ClientCase {
+                    gen: true, shape, sends: send.clone(), accepts: cfg.clone(), user_md: vec![],
+                    msgs: vec![gen_request_msg(shape, "svc"), gen_request_msg(shape, "")], resp_headers: vec![],
+                    resp_frames: vec![InFrame { flag: 0, codec: None, msg: gen_response_msg(shape, 1) }], trailers_only: false, coalesce: false,
+                });
+            }
+        }
+        // generated client over generated server: client accept order x server send set
+        for (si, snd) in cfgs.iter().enumerate() {
+            if !a.thorough && (ci + si) % 3 != 0 {
+                continue;
+            }
+            let shape = GEN_SHAPES[(ci + 2 * si) % 3];
+            let cl_send = [vec![], vec![Enc::Gzip], vec![Enc::Deflate], vec![Enc::Zstd]][(ci + si) % 4].clone();
+            let sv_accept = cfgs[(3 * ci + 5 * si + 1) % cfgs.len()].clone();
+            case_e2e(&mut out, "corpus.gen.e2e", E2eCase {
+                shape, cl_sends: cl_send, cl_accepts: cfg.clone(), sv_accept, sv_send: snd.clone(), with_max: si % 2 == 0,
+                user_md: vec![], msgs: vec![gen_request_msg(shape, "svc"), gen_request_msg(shape, "b")],
+                handler: HandlerSpec { md: vec![], disable: false, err: None, msgs: vec![gen_response_msg(shape, 1), gen_response_msg(shape, 2)] },
+            });
+        }
+    }
     // EnabledCompressionEncodings: all call sequences up to length 4 (5 in the thorough tier)
     let alphabet = [Op::Enable(Enc::Gzip), Op::Enable(Enc::Deflate), Op::Enable(Enc::Zstd), Op::Pop];
     let maxlen = if a.thorough { 5 } else { 4 };
@@ -1815,6 +2468,63 @@ fn main() {
         case_client_receive(&mut out, "client_receive", ClientCase {
             gen: false, shape: *r.pick(&SHAPES), sends: vec![], accepts, user_md: vec![], msgs: vec![gen_msg(&mut r)], resp_headers: h,
             resp_frames: frames, trailers_only, coalesce: r.chance(1, 2),
+        });
+    }
+    let (n_gsrv, n_greq, n_e2e) = if a.thorough { (5000, 800, 4000) } else { (450, 100, 350) };
+    for _ in 0..n_gsrv {
+        let shape = *r.pick(&GEN_SHAPES);
+        let accept = gen_calls(&mut r, &cfgs);
+        let send = gen_calls(&mut r, &cfgs);
+        let (headers, enc) = gen_request_headers(&mut r, &accept);
+        let n = *r.pick(&[1usize, 1, 1, 2, 3, 0]);
+        let frames: Vec<InFrame> = (0..n).map(|_| gen_typed_frame(&mut r, shape, &enc)).collect();
+        let plain = r.chance(1, 2);
+        let handler = gen_typed_handler(&mut r, shape, plain);
+        case_server(&mut out, "gen.server", ServerCase {
+            gen: Some(r.chance(1, 2)), shape, accept, send, via_apply: true, headers, frames, coalesce: r.chance(1, 2), handler,
+        });
+    }
+    for _ in 0..n_greq {
+        let shape = *r.pick(&GEN_SHAPES);
+        let mut sends = vec![];
+        for _ in 0..*r.pick(&[0u64, 1, 1, 1, 2, 3]) {
+            sends.push(*r.pick(&ALL));
+        }
+        let mut user_md: Pairs = vec![];
+        if r.chance(1, 3) {
+            user_md.push(("x-user".into(), b"u".to_vec()));
+        }
+        if r.chance(1, 10) {
+            user_md.push((ENCODING.into(), r.pick(FORGED).to_vec()));
+        }
+        if r.chance(1, 10) {
+            user_md.push((ACCEPT.into(), r.pick(FORGED_ACCEPT).to_vec()));
+        }
+        let n = *r.pick(&[1usize, 1, 2, 3]);
+        let msgs = (0..n).map(|_| gen_request_msg(shape, *r.pick(&["", "a", "svc.Name"]))).collect();
+        case_client_request(&mut out, "gen.client_request", ClientCase {
+            gen: true, shape, sends, accepts: gen_calls(&mut r, &cfgs), user_md, msgs, resp_headers: vec![],
+            resp_frames: vec![InFrame { flag: 0, codec: None, msg: gen_response_msg(shape, 1) }], trailers_only: false, coalesce: false,
+        });
+    }
+    for _ in 0..n_e2e {
+        let shape = *r.pick(&GEN_SHAPES);
+        let mut cl_sends = vec![];
+        for _ in 0..*r.pick(&[0u64, 1, 1, 1, 2]) {
+            cl_sends.push(*r.pick(&ALL));
+        }
+        let mut user_md: Pairs = vec![];
+        if r.chance(1, 3) {
+            user_md.push(("x-user".into(), b"u".to_vec()));
+        }
+        let n = *r.pick(&[1usize, 1, 2, 3]);
+        let msgs = (0..n).map(|_| gen_request_msg(shape, *r.pick(&["", "a", "svc.Name"]))).collect();
+        let plain = r.chance(2, 3);
+        let mut handler = gen_typed_handler(&mut r, shape, plain);
+        handler.md.retain(|(k, _)| k != ENCODING && k != ACCEPT);
+        case_e2e(&mut out, "gen.e2e", E2eCase {
+            shape, cl_sends, cl_accepts: gen_calls(&mut r, &cfgs), sv_accept: gen_calls(&mut r, &cfgs), sv_send: gen_calls(&mut r, &cfgs),
+            with_max: r.chance(1, 2), user_md, msgs, handler,
         });
     }
     for _ in 0..n_ops {
